@@ -37,9 +37,9 @@ import (
 
 // hop is one step of a history.
 type hop struct {
-	Op string `json:"op"` // ins | rem | commit
-	K  string `json:"k,omitempty"`
-	V  string `json:"v,omitempty"`
+	Op string  `json:"op"`          // ins | rem | commit
+	K  *string `json:"k,omitempty"` // hex; "" is the empty key; absent for commit
+	V  *string `json:"v,omitempty"` // hex; "" is the empty value; absent for rem/commit
 
 	k, v []byte
 }
@@ -424,7 +424,8 @@ func mkIns(k string, v []byte) hop {
 	if kb == nil {
 		kb = []byte{}
 	}
-	return hop{Op: "ins", k: kb, v: v, K: lab.Hex(kb), V: lab.Hex(v)}
+	hk, hv := lab.Hex(kb), lab.Hex(v)
+	return hop{Op: "ins", k: kb, v: v, K: &hk, V: &hv}
 }
 
 func mkRem(k string) hop {
@@ -432,7 +433,8 @@ func mkRem(k string) hop {
 	if kb == nil {
 		kb = []byte{}
 	}
-	return hop{Op: "rem", k: kb, K: lab.Hex(kb)}
+	hk := lab.Hex(kb)
+	return hop{Op: "rem", k: kb, K: &hk}
 }
 
 func genHistory(rng *rand.Rand, set *lab.Model, style, batching string) []hop {
@@ -565,7 +567,6 @@ func treeOptions(spec *routeSpec) []mkvs.Option {
 	}
 	return opts
 }
-
 
 // failure describes why a history failed on a route.
 type failure struct {
@@ -713,8 +714,8 @@ func runHistory(spec *routeSpec, hist []hop, count, keepDB bool) (res routeResul
 					sig = family + "wrong-root"
 				}
 				return res, &failure{Sig: sig, Coarse: "wrong-root",
-					What:  fmt.Sprintf("route %s step %d: commit root %s != reference %s for %d keys", spec.Name, step, root, want, model.Len()),
-					Step:  step, RootA: root.String(), RootB: want.String(), At: lab.HexPairs(model),
+					What: fmt.Sprintf("route %s step %d: commit root %s != reference %s for %d keys", spec.Name, step, root, want, model.Len()),
+					Step: step, RootA: root.String(), RootB: want.String(), At: lab.HexPairs(model),
 					Detail: "root returned by Commit (root_a) differs from the reference root of the contents at this commit (root_b)"}
 			}
 			if ndb != nil && spec.Finalize {
